@@ -10,11 +10,11 @@ trap cleanup EXIT
 cd "$W"
 # seeds are made against the pinned snapshot; the worktree is at /repo HEAD (snapshot + fix: commits)
 git apply "$D/patch.diff" 2>/dev/null || { echo "$(basename $D) patch-does-not-apply"; exit 1; }
-suite=$(/tmp/mut/buildtest.sh "$W" 2>&1 | grep -c "100% tests passed")
+suite=$(/verif/tools/buildtest.sh "$W" 2>&1 | grep -c "100% tests passed")
 ( cd "$D" && bash ./build_demo.sh "$W" >/dev/null 2>&1 ); 
 exe=$(ls -t "$D" | while read f; do [ -x "$D/$f" ] && [ ! -d "$D/$f" ] && [ "${f##*.}" != "sh" ] && echo "$f" && break; done)
 with=1; ( cd "$D" && timeout 120 ./$exe >/dev/null 2>&1 ); with=$?
-git checkout -- . ; /tmp/mut/buildtest.sh "$W" >/dev/null 2>&1
+git checkout -- . ; /verif/tools/buildtest.sh "$W" >/dev/null 2>&1
 ( cd "$D" && bash ./build_demo.sh "$W" >/dev/null 2>&1 ); ( cd "$D" && timeout 120 ./$exe >/dev/null 2>&1 ); without=$?
 echo "$(basename $D) suite_green=$suite demo_exe=$exe rc_with_change=$with rc_without=$without"
 [ "$suite" = 1 ] && [ "$with" != 0 ] && [ "$without" = 0 ]
